@@ -445,6 +445,50 @@ fn gen_history(rng: &mut Rng, fam: &str) -> (Schema, Vec<Stmt>) {
             for _ in 0..(5 + rng.below(8)) { h.push(gen_stmt(rng, &sch, Tid::P)); }
             (sch, h)
         }
+        // shapes aimed at the rarer recorded classes (14, 16 .. 19), with random values around them
+        "aimed" => {
+            let a = *rng.pick(&DOM); let b = *rng.pick(&DOM); let k = rng.range(1, 9);
+            let pk = |key: u8| Col { key, nn: false, chk: None, fk: None };
+            let fkc = |col: usize, act: u8| Col { key: 0, nn: false, chk: None, fk: Some(Fk { col, act }) };
+            let i = |x: i64| Val::Int(x);
+            match rng.below(5) {
+                0 => { // ON DELETE CASCADE, then the same child key again
+                    let sch = Schema { p: vec![pk(1)], c: vec![pk(if rng.chance(2, 3) { 1 } else { 2 }), fkc(0, 2)] };
+                    h = vec![Stmt::Ins(Tid::P, vec![vec![i(a)]]), Stmt::Ins(Tid::C, vec![vec![i(k), i(a)]]), Stmt::Del(Tid::P, if rng.chance(1, 2) { None } else { Some(Expr::cmp(CmpOp::Eq, Expr::col(0), Expr::int(a))) }),
+                             Stmt::Ins(Tid::P, vec![vec![i(a)]]), Stmt::Ins(Tid::C, vec![vec![i(if rng.chance(2, 3) { k } else { k + 1 }), i(a)]])];
+                    (sch, h)
+                }
+                1 => { // NULL parent key against NULL child reference
+                    let sch = Schema { p: vec![pk(1), pk(2)], c: vec![pk(1), fkc(1, *rng.pick(&[0, 1, 2]))] };
+                    h = vec![Stmt::Ins(Tid::P, vec![vec![i(1), Val::Null]]), Stmt::Ins(Tid::P, vec![vec![i(2), i(a)]]),
+                             Stmt::Ins(Tid::C, vec![vec![i(k), if rng.chance(2, 3) { Val::Null } else { i(a) }]]),
+                             Stmt::Del(Tid::P, Some(Expr::cmp(CmpOp::Eq, Expr::col(0), Expr::int(rng.range(1, 2)))))];
+                    (sch, h)
+                }
+                2 => { // foreign key to an unindexed parent column: the scan sees deleted parents
+                    let sch = Schema { p: vec![pk(1), pk(0)], c: vec![pk(1), fkc(1, 0)] };
+                    h = vec![Stmt::Ins(Tid::P, vec![vec![i(1), i(a)]]), Stmt::Del(Tid::P, if rng.chance(1, 2) { None } else { Some(Expr::cmp(CmpOp::Eq, Expr::col(0), Expr::int(1))) }),
+                             Stmt::Ins(Tid::C, vec![vec![i(k), i(if rng.chance(3, 4) { a } else { b })]]), Stmt::Ins(Tid::P, vec![vec![i(2), i(b)]]), Stmt::Ins(Tid::C, vec![vec![i(k + 1), i(b)]])];
+                    (sch, h)
+                }
+                3 => { // a deleted child row still blocks the parent
+                    let sch = Schema { p: vec![pk(1)], c: vec![pk(1), fkc(0, *rng.pick(&[0, 1]))] };
+                    h = vec![Stmt::Ins(Tid::P, vec![vec![i(a)]]), Stmt::Ins(Tid::C, vec![vec![i(k), i(a)]]),
+                             Stmt::Del(Tid::C, if rng.chance(1, 2) { None } else { Some(Expr::cmp(CmpOp::Eq, Expr::col(0), Expr::int(k))) }),
+                             Stmt::Del(Tid::P, None), Stmt::Ins(Tid::P, vec![vec![i(a)]])];
+                    (sch, h)
+                }
+                _ => { // key update, then the row is addressed through its new key
+                    let sch = Schema { p: vec![pk(1), pk(if rng.chance(1, 2) { 2 } else { 0 })], c: vec![] };
+                    h = vec![Stmt::Ins(Tid::P, vec![vec![i(a), i(1)]]), Stmt::Ins(Tid::P, vec![vec![i(a + 10), i(2)]]),
+                             Stmt::Upd(Tid::P, vec![(0, i(a + 20))], Some(Expr::cmp(CmpOp::Eq, Expr::col(0), Expr::int(a)))),
+                             if rng.chance(1, 2) { Stmt::Upd(Tid::P, vec![(1, i(b))], Some(Expr::cmp(CmpOp::Eq, Expr::col(0), Expr::int(a + 20)))) }
+                             else { Stmt::Upd(Tid::P, vec![(0, i(a + 20))], Some(Expr::cmp(CmpOp::Eq, Expr::col(1), Expr::int(1)))) },
+                             Stmt::Del(Tid::P, Some(Expr::cmp(CmpOp::Eq, Expr::col(0), Expr::int(a + 20))))];
+                    (sch, h)
+                }
+            }
+        }
         // two tables with a foreign key
         _ => {
             let np = 2 + rng.below(2) as usize;
@@ -510,7 +554,7 @@ fn main() {
 fn families(thorough: bool) -> Vec<Fam> {
     let m = if thorough { 12 } else { 1 };
     vec![Fam { name: "check_good", n: 120 * m }, Fam { name: "check_bad", n: 60 * m }, Fam { name: "unique", n: 160 * m },
-         Fam { name: "fk", n: 160 * m }, Fam { name: "fk_cascade", n: 60 * m }, Fam { name: "fk_scan", n: 40 * m }]
+         Fam { name: "fk", n: 160 * m }, Fam { name: "fk_cascade", n: 60 * m }, Fam { name: "fk_scan", n: 40 * m }, Fam { name: "aimed", n: 30 * m }]
 }
 fn nontrivial(obs: &[Obs]) -> bool {
     let acc = obs.iter().any(|o| matches!(o, Obs::Seen(true, p, c) if !p.is_empty() || !c.is_empty()));
